@@ -2,6 +2,8 @@ CONSTANTS
   T = 2
   MaxKeys = 2
   Servers = {"A", "B"}
+  MaxAge = 2
+  StampOnRevoke = TRUE
   ReloadOnCommit = TRUE
 INIT Init
 NEXT Next
